@@ -53,6 +53,9 @@ package kgo
 //@   site call SetVersion#0 assert [not-below-user-min] reached($LookupMaxKeyVersion1_0) ==> arg0 >= $LookupMaxKeyVersion1_0
 //   No request is written without having gone through the clamp on the same path.
 //@   site call writeRequest#0 assert [clamped-before-write] reached($SetVersion0)
+//   "When no such version exists, the request fails with an error and is not written": once the broker's ApiVersions
+//   table is loaded (it is never empty then), a request whose key the table does not list is not written.
+//@   site call writeRequest#0 assert [not-written-when-broker-lacks-key] len(v.maxVers) > 0 ==> $maxVersion2 >= 0
 
 // The connection-opening ApiVersions request is written outside handleReq, by requestAPIVersions. The version it
 // is written with (every iteration of the downgrade loop at `start:`) is never negative, never above the user's
